@@ -505,10 +505,9 @@ func (p *PQL) Execute() {
 		case ruleAction46:
 			p.addVal(text)
 		case ruleAction47:
-			s, _ := strconv.Unquote(text)
-			p.addVal(s)
+			p.addVal(unquoteDouble(text))
 		case ruleAction48:
-			p.addVal(text)
+			p.addVal(unquoteSingle(text))
 		case ruleAction49:
 			p.addField(text)
 		case ruleAction50:
@@ -516,15 +515,15 @@ func (p *PQL) Execute() {
 		case ruleAction51:
 			p.addPosNum("_col", text)
 		case ruleAction52:
-			p.addPosStr("_col", text)
+			p.addPosStr("_col", unquoteSingle(text))
 		case ruleAction53:
-			p.addPosStr("_col", text)
+			p.addPosStr("_col", unquoteDouble("\""+text+"\""))
 		case ruleAction54:
 			p.addPosNum("_row", text)
 		case ruleAction55:
-			p.addPosStr("_row", text)
+			p.addPosStr("_row", unquoteSingle(text))
 		case ruleAction56:
-			p.addPosStr("_row", text)
+			p.addPosStr("_row", unquoteDouble("\""+text+"\""))
 		case ruleAction57:
 			p.addPosStr("_timestamp", text)
 
@@ -3103,9 +3102,9 @@ func (p *PQL) Init() {
 		nil,
 		/* 80 Action46 <- <{ p.addVal(text) }> */
 		nil,
-		/* 81 Action47 <- <{ s, _ := strconv.Unquote(text); p.addVal(s) }> */
+		/* 81 Action47 <- <{ p.addVal(unquoteDouble(text)) }> */
 		nil,
-		/* 82 Action48 <- <{ p.addVal(text) }> */
+		/* 82 Action48 <- <{ p.addVal(unquoteSingle(text)) }> */
 		nil,
 		/* 83 Action49 <- <{ p.addField(text) }> */
 		nil,
@@ -3113,15 +3112,15 @@ func (p *PQL) Init() {
 		nil,
 		/* 85 Action51 <- <{p.addPosNum("_col", text)}> */
 		nil,
-		/* 86 Action52 <- <{p.addPosStr("_col", text)}> */
+		/* 86 Action52 <- <{p.addPosStr("_col", unquoteSingle(text))}> */
 		nil,
-		/* 87 Action53 <- <{p.addPosStr("_col", text)}> */
+		/* 87 Action53 <- <{p.addPosStr("_col", unquoteDouble("\""+text+"\""))}> */
 		nil,
 		/* 88 Action54 <- <{p.addPosNum("_row", text)}> */
 		nil,
-		/* 89 Action55 <- <{p.addPosStr("_row", text)}> */
+		/* 89 Action55 <- <{p.addPosStr("_row", unquoteSingle(text))}> */
 		nil,
-		/* 90 Action56 <- <{p.addPosStr("_row", text)}> */
+		/* 90 Action56 <- <{p.addPosStr("_row", unquoteDouble("\""+text+"\""))}> */
 		nil,
 		/* 91 Action57 <- <{p.addPosStr("_timestamp", text)}> */
 		nil,
